@@ -54,9 +54,10 @@ class TLCResult(object):
         )
 
 
-_CASE_RE = re.compile(r'<<"CASE", ("(?:[^"\\]|\\.)*")>>')
+# (TLC wraps printed tuples longer than ~80 characters across lines: allow white space between elements)
+_CASE_RE = re.compile(r'<<\s*"CASE",\s*("(?:[^"\\]|\\.)*")\s*>>')
 _VERDICT_RE = re.compile(
-    r'<<"VERDICT", (-?\d+), "(accept|reject)", (-?\d+), "((?:[^"\\]|\\.)*)">>'
+    r'<<\s*"VERDICT",\s*(-?\d+),\s*"(accept|reject)",\s*(-?\d+),\s*"((?:[^"\\]|\\.)*)"\s*>>'
 )
 _STATS_RE = re.compile(r"(\d+) states generated, (\d+) distinct states found")
 _DEPTH_RE = re.compile(r"The depth of the complete state graph search is (\d+)")
